@@ -53,6 +53,17 @@ Definition sqfacts (s : state) (p0 : nat) : Prop :=
   (inl p0 [13;29] = true -> que s 3 <> []) /\
   (inl p0 [36;37] = true -> que s 2 = []).
 
+(* the wake-up invariant of the event loop: queued callbacks are announced by a byte in the wake-up pipe, or the
+   loop thread is at a point from which it looks at the queue without sleeping in poll() first (between a
+   successful poll and the swap, between its own push and pipe write, or in the destructor's drain), or a
+   producer is between its push and its pipe write *)
+Definition safe0 (p0 : nat) : bool :=
+  inl p0 [8;9;10;17;18;20;21;22;23;24;25;26;27;28;29;30;31;32;33;34;35;36;37].
+Definition spend (s : state) (i : nat) : Prop :=
+  stat (thr s (1 + i)) = Ready /\ inl (pc (thr s (1 + i))) [3;4] = true.
+Definition swk (s : state) (p0 : nat) : Prop :=
+  que s 2 <> [] -> var s 2 <> 0 \/ safe0 p0 = true \/ (exists i, i < NS /\ spend s i).
+
 Definition Rss (s : state) : Prop :=
   exists p0 st0 r0 c0 l0 cu0 om,
     thr s 0 = mkT 10 p0 st0 r0 c0 l0 cu0 /\
@@ -65,7 +76,7 @@ Definition Rss (s : state) : Prop :=
     (forall t, om = Some t -> t < 1 + NS) /\
     (forall r, r <> 2 -> own s r = None) /\
     (forall o, alive s o = true) /\
-    sqfacts s p0 /\
+    sqfacts s p0 /\ swk s p0 /\
     subm s = map fst (ran s) ++ ol cu0 ++ que s 3 ++ que s 2 /\
     (forall c t, In (c, t) (ran s) -> t = 0) /\
     (forall c, In c (subm s) -> fst c < 1 + NS) /\
@@ -76,7 +87,8 @@ Lemma Rss_init : Rss (init_ss lims rs kk).
 Proof.
   unfold Rss. exists 0, Fresh, 0, 0, 0, None, None. cbn.
   repeat split; try reflexivity; try solve [intros; discriminate]; try solve [intros; reflexivity];
-    try solve [intros ? ? []]; try solve [intros ? []]; try contradiction.
+    try solve [intros ? ? []]; try solve [intros ? []]; try contradiction;
+    try solve [intros XX; exfalso; apply XX; reflexivity].
   intros i Hi. unfold sPRi. exists 0, NotStarted, 0, 0.
   apply Nat.ltb_lt in Hi. unfold NS in Hi.
   unfold init_ss, base_state. cbn [thr subm Nat.add]. rewrite Hi. cbn.
